@@ -338,7 +338,12 @@ func (f *Fam) genTx1(r *rand.Rand, s *Snapshot) string {
 		}
 		to := other
 		if r.Intn(25) == 0 {
-			to = []string{poolAddr, daoAddr, strings.Repeat("cd", 20)}[r.Intn(3)]
+			to = []string{poolAddr, daoAddr, strings.Repeat("cd", 20), feeAddr, posAddr}[r.Intn(5)]
+		}
+		if f.height <= 1 && r.Intn(3) == 0 {
+			// in the first block the fee collector and the pos module have not used their accounts yet: coins sent to
+			// their addresses now are what those module accounts must later be built around
+			to = []string{feeAddr, posAddr}[r.Intn(2)]
 		}
 		fields = fmt.Sprintf("from=%s to=%s amt=%s", addr, to, amt)
 	case x < 85:
